@@ -157,11 +157,12 @@ structure FCView where
   b : Nat
 deriving DecidableEq, Repr
 
-def strLocal : Str := Str.ofString KG.Gen.C11.localFlowControls
-def strRemote : Str := Str.ofString KG.Gen.C11.remoteFlowControls
-def strSystemDefault : Str := Str.ofString KG.Gen.C11.defaultFlowControlName
-def strGlobalRateLimiter : Str := Str.ofString KG.Gen.C11.globalRateLimiterGate
-def strAnnotationKey : Str := Str.ofString KG.Gen.C11.featureGateAnnotationKey
+/-! string constants of the sources, regenerated as byte lists (kernel-reducible) -/
+def strLocal : Str := KG.Gen.C11.localFlowControlsB
+def strRemote : Str := KG.Gen.C11.remoteFlowControlsB
+def strSystemDefault : Str := KG.Gen.C11.defaultFlowControlNameB
+def strGlobalRateLimiter : Str := KG.Gen.C11.globalRateLimiterGateB
+def strAnnotationKey : Str := KG.Gen.C11.featureGateAnnotationKeyB
 
 /-- `flowcontrol.DefaultFlowControl` -/
 def defaultFlowControl : FCView := ⟨strSystemDefault, .exempt, 0, 0⟩
@@ -472,8 +473,8 @@ def allEndpoints (c : CI) : List Str := akeys c.eps
 def loadPolicies (c : CI) : List DPolicy := c.policies.getD []
 def loadLogging (c : CI) : Str := c.logging.getD []
 
-def strOn : Str := Str.ofString "on"
-def strOff : Str := Str.ofString "off"
+def strOn : Str := KG.Gen.C11.logOnB
+def strOff : Str := KG.Gen.C11.logOffB
 
 /-- `isLogEnabled` -/
 def isLogEnabled (upstream policy : Str) : Bool :=
@@ -556,29 +557,26 @@ def checkUpstreamServerNameConflict (env : Env) (st : Ctl) (cluster : Obj) : Boo
     | none => []
   checkServerNameConflict env st clusterName old new
 
+/-- `c, ok := m.Get(name); if ok && c.Cluster == clusterName { m.Delete(name) }` -/
+def delOwned (env : Env) (clusterName : Str) (s : Ctl) (name : Str) : Ctl :=
+  match s.get env name with
+  | some (_, c) => if c.cluster = clusterName then s.delete env name else s
+  | none => s
+
 /-- `AddOrUpdateForServerNames`: `none` = error (conflict), nothing changed -/
 def addOrUpdateForServerNames (env : Env) (st : Ctl) (old : List Str) (id : Nat) (info : CI) : Option Ctl :=
   let new := loadServerNames env info
   if old = new then some st
   else if checkServerNameConflict env st info.cluster old new then none
   else
-    let st1 := old.foldl (fun s o =>
-      if memb o new then s
-      else
-        match s.get env o with
-        | some (_, c) => if c.cluster = info.cluster then s.delete env o else s
-        | none => s) st
+    let st1 := old.foldl (fun s o => if memb o new then s else delOwned env info.cluster s o) st
     some (new.foldl (fun s n => if memb n old then s else s.addWithKey env n id) st1)
 
 /-- `DeleteForServerNames` -/
 def deleteForServerNames (env : Env) (st : Ctl) (clusterName : Str) : Ctl :=
   match st.get env clusterName with
   | none => st
-  | some (_, info) =>
-    (loadServerNames env info).foldl (fun s n =>
-      match s.get env n with
-      | some (_, c) => if c.cluster = clusterName then s.delete env n else s
-      | none => s) st
+  | some (_, info) => (loadServerNames env info).foldl (delOwned env clusterName) st
 
 /-- answer of the sync handler: done; deliver the item again later (`RequeueAfter`); the process panicked -/
 inductive HResult
